@@ -90,6 +90,10 @@ def convert_chunks(source_url, dest_url, copy_info=False,
         convert_chunks_for_scale(chunk_reader,
                                  dest_info, chunk_writer, scale_index,
                                  chunk_transformer)
+    # Sharded datasets are written on close: do it here so that I/O errors
+    # are reported in the exit status (the exit handler cannot do that)
+    if hasattr(dest_accessor, "close"):
+        dest_accessor.close()
 
 
 def parse_command_line(argv):
